@@ -22,7 +22,10 @@ RULE = (
     '{float64, float32, int64, int32} x {deg, rad, mrad} (integer degrees that are not whole radians, e.g. 45 deg, '
     'integer radians, integer mrad), frequency and pulse_frequency each in {float64, float32, int64, int32} x '
     '{Hz, kHz, 1/min} where the stored number is exact and scipp converts the pulse frequency exactly (else float64); '
-    'the model and the oracle take the exact value of the typed input. Rejection streams: ratios r(1+d) for d in '
+    'the model and the oracle take the exact value of the typed input. Object-reuse histories: ONE DiskChopper queried 2-4 '
+    'times with different pulse frequencies (chopper frequency / ratio, or / an out-of-phase number; Hz, kHz, 1/min; float64 '
+    'or exact int), methods interleaved (open, close, duration, from_disk_chopper) and dataclasses.replace copies; every '
+    'answer must equal that of a fresh chopper, the model, and the exact disk oracle. Rejection streams: ratios r(1+d) for d in '
     '{0,+-1e-9,+-1e-8,+-1.1e-8,+-1e-7,...}, non-integer ratios, pulse frequency <= 0; slit sets that overlap, touch, '
     'are inverted, have different lengths, or overlap only across top-dead-centre. A case is distinct by its exact '
     'typed inputs; it is non-trivial when it has at least one slit and a non-zero beam position or phase (times), or '
@@ -573,6 +576,131 @@ def phase_line(c):
     return f"c10.phase {bits(c['f_val'])} {bits(pf_conv)} {bits(1e-8)}"
 
 
+# ---- object reuse: one DiskChopper queried several times ---------------------------------------
+
+OUT_OF_PHASE = [Fraction(5, 2), Fraction(3, 2), Fraction(37, 100), Fraction(7, 3), Fraction(2, 3), Fraction(13, 10)]
+METHODS = ['open-close-duration', 'close-open', 'duration-first', 'cascade', 'open-only']
+
+
+def gen_history(rng):
+    """a disk and 2-4 queries of the SAME object with different pulse frequencies (the chopper frequency divided by
+    a ratio from 1/4..8, or by an out-of-phase number), in Hz / kHz / 1/min, float64 or (where exact) int64, with the
+    public methods interleaved and dataclasses.replace copies in between"""
+    c = gen_disk(rng)
+    f_hz = abs(Fraction(c['f_val']) * F_UNITS[c['f_unit']])
+    qs = []
+    for _ in range(rng.randint(2, 4)):
+        r = rng.choice(RATIOS) if rng.random() < 0.7 else rng.choice(OUT_OF_PHASE)
+        pf_hz = f_hz / r
+        unit = rng.choice(['Hz', 'Hz', 'kHz', '1/min'])
+        v = pf_hz / F_UNITS[unit]
+        dtype = 'float64'
+        if v.denominator == 1 and abs(v) < 2**31 and rng.random() < 0.4 and (pf_hz / F_UNITS[c['f_unit']]).denominator == 1:
+            dtype = rng.choice(['int64', 'int32'])
+        qs.append(dict(method=rng.choice(METHODS), pf_val=_store(v, dtype), pf_dtype=dtype, pf_unit=unit,
+                       npulses=rng.randint(1, 3), via=rng.choice(['same', 'same', 'same', 'replace']), ratio=str(r)))
+    c['history'] = qs
+    return c
+
+
+def _query(obj, q):
+    """one query of a chopper object: canonical result (exact times in seconds) or error enum"""
+    import scipp as sc
+    from scippneutron.tof.chopper_cascade import Chopper
+
+    pf = sc.scalar(q['pf_val'], unit=q['pf_unit'], dtype=q['pf_dtype'])
+    try:
+        if q['method'] == 'cascade':
+            r = Chopper.from_disk_chopper(obj, pulse_frequency=pf, npulses=q['npulses'])
+            return ('cascade', _to_seconds(r.time_open), _to_seconds(r.time_close))
+        if q['method'] == 'close-open':
+            cl = obj.time_offset_close(pulse_frequency=pf)
+            o = obj.time_offset_open(pulse_frequency=pf)
+            return ('times', _to_seconds(o), _to_seconds(cl), None)
+        if q['method'] == 'duration-first':
+            d = obj.open_duration(pulse_frequency=pf)
+            o = obj.time_offset_open(pulse_frequency=pf)
+            cl = obj.time_offset_close(pulse_frequency=pf)
+            return ('times', _to_seconds(o), _to_seconds(cl), _to_seconds(d))
+        if q['method'] == 'open-only':
+            o = obj.time_offset_open(pulse_frequency=pf)
+            return ('times', _to_seconds(o), None, None)
+        o = obj.time_offset_open(pulse_frequency=pf)
+        cl = obj.time_offset_close(pulse_frequency=pf)
+        d = obj.open_duration(pulse_frequency=pf)
+        return ('times', _to_seconds(o), _to_seconds(cl), _to_seconds(d))
+    except Exception as e:  # noqa: BLE001
+        return _err(e)
+
+
+def run_history(c, reuse):
+    """results of the queries on ONE object (reuse=True; `replace` queries continue on a dataclasses.replace copy)
+    or on a freshly constructed chopper per query"""
+    import dataclasses
+
+    try:
+        cur = make_chopper(c)[0]
+    except Exception as e:  # noqa: BLE001
+        return [_err(e)] * len(c['history'])
+    out = []
+    for q in c['history']:
+        if reuse:
+            if q['via'] == 'replace':
+                cur = dataclasses.replace(cur)
+            obj = cur
+        else:
+            obj = make_chopper(c)[0]
+        out.append(_query(obj, q))
+    return out
+
+
+def _query_case(c, q):
+    """the disk with the pulse frequency of this query (for the model and the exact oracle)"""
+    c2 = {k: v for k, v in c.items() if k != 'history'}
+    c2.update(pf_val=q['pf_val'], pf_dtype=q['pf_dtype'], pf_unit=q['pf_unit'], npulses=q['npulses'])
+    return c2
+
+
+def oracle_history(ctx, c):
+    """every result of a reused object equals that of a fresh chopper and is a correct set of openings"""
+    reused = run_history(c, True)
+    fresh = run_history(c, False)
+    wit = {'op': 'history', 'case': _encode_disk(c)}
+    for i, (q, a, b) in enumerate(zip(c['history'], reused, fresh)):
+        if a != b:
+            def show(r):
+                return r if isinstance(r, str) else f'{len(r[1])} opening times'
+            _report(ctx, 'C10:history-dependent',
+                    f"query {i} ({q['method']}, pulse frequency {q['pf_val']} {q['pf_unit']}, ratio {q['ratio']}) on a chopper "
+                    f'that was queried before gives {show(a)}, a freshly constructed chopper gives {show(b)}', wit)
+            return
+        # exact disk oracle on the reused object's answer
+        c2 = _query_case(c, q)
+        f, pf, beam, phase, slits = exact_inputs(c2)
+        x = abs(f) / pf
+
+        def dist(z):
+            fl = math.floor(z)
+            return min(z - fl, fl + 1 - z)
+
+        in_phase = min(dist(x), dist(1 / x)) < Fraction(1, 10**9)
+        if isinstance(a, str):
+            continue    # rejected exactly as by a fresh chopper (compared above)
+        if not in_phase:
+            _report(ctx, 'C10:history-dependent', f'query {i}: out-of-phase pulse frequency (ratio {q["ratio"]}) accepted on a reused chopper', wit)
+            return
+        if a[0] == 'times' and a[2] is not None:
+            sim = Sim(f, beam, phase, slits)
+            period = 1 / abs(f)
+            probs = check_openings(sim, a[1], a[2], period / 10**7, period / 10**10, f'query {i}')
+            n = max(1, round(x))
+            if len(a[1]) != (n + 1) * len(slits):
+                probs.append(('count', f'query {i}: {len(a[1])} openings for {len(slits)} slits and ratio {q["ratio"]}'))
+            if probs:
+                _report(ctx, 'C10:history-dependent', probs[0][1], wit)
+                return
+
+
 # ---- correspondence --------------------------------------------------------------------------
 
 def _corpus():
@@ -645,6 +773,44 @@ def correspond(ctx):
                 break
         if impl[3] != 7.5:
             ctx.disagree({'op': 'cascade', **_disk_sample(c)}, impl[3], 7.5, 'distance is not the norm of the axle position')
+    # one object, several queries: the model is a pure function of the arguments of each query
+    hists = [gen_history(rng) for _ in range(ctx.n(60, 1200))]
+    hl = []
+    for c in hists:
+        for q in c['history']:
+            c2 = _query_case(c, q)
+            hl.append(disk_line('c10.cascade', c2).replace('c10.cascade', casc_op, 1) if q['method'] == 'cascade'
+                      else disk_line('c10.times', c2))
+    houts = ctx.driver(hl)
+    hi = 0
+    for c in hists:
+        res = run_history(c, True)
+        for q, r in zip(c['history'], res):
+            out = houts[hi]
+            hi += 1
+            c2 = _query_case(c, q)
+            ctx.case(('history', q['method'], q['via'], _disk_ident(c2)), True,
+                     sample={'op': 'history', 'method': q['method'], 'via': q['via'], 'ratio': q['ratio'], 'pf': [q['pf_val'], q['pf_unit']]})
+            ctx.count(f"history:{q['method']}:{q['via']}:{'ok' if not isinstance(r, str) else r}")
+            if isinstance(r, str) or not out.startswith('ok'):
+                if r == 'err:unit' and q['method'] == 'cascade' and c['f_unit'] != q['pf_unit'] and not by_rot:
+                    continue
+                if (r if isinstance(r, str) else 'ok') != out.split()[0]:
+                    ctx.disagree({'op': 'history', 'query': q, **_disk_sample(c2)}, str(r)[:120], out[:120],
+                                 'acceptance on a reused chopper differs from the model')
+                continue
+            m = _parse_lists(out)
+            pairs = [('open', r[1], m['open'])]
+            if r[2] is not None:
+                pairs.append(('close', r[2], m['close']))
+            if r[0] == 'times' and r[3] is not None:
+                pairs.append(('dur', r[3], m['dur']))
+            for name, iv, mv in pairs:
+                why = _cmp_lists(c2, iv, mv)
+                if why:
+                    ctx.disagree({'op': 'history', 'list': name, 'query': q, **_disk_sample(c2)}, [float(v) for v in iv][:8],
+                                 [float(v) for v in mv][:8], 'reused chopper: ' + why)
+                    break
     # rejection of slit sets
     edges = [j['case'] for j in _corpus() if j.get('op') == 'edges']
     edges.append(dict(kind='tdc-overlap', begins=[10.0, 300.0], ends=[30.0, 380.0], unit='deg'))
@@ -920,6 +1086,10 @@ def oracle(ctx, deep):
         c = gen_disk(rng)
         ctx.case(('oracle-disk', c['npulses'], _disk_ident(c)), len(c['slits']) > 0)
         oracle_disk(ctx, c)
+    for _ in range(600 if deep else ctx.n(60, 1000)):
+        c = gen_history(rng)
+        ctx.case(('oracle-history', json.dumps(c['history'], sort_keys=True), _disk_ident(c)), True)
+        oracle_history(ctx, c)
     oracle_edges(ctx, dict(kind='tdc-overlap', begins=[10.0, 300.0], ends=[30.0, 380.0], unit='deg'))
     for _ in range(3000 if deep else ctx.n(400, 5000)):
         c = gen_edges(rng)
@@ -951,6 +1121,8 @@ def replay(ctx, payload):
     col = _Collect()
     if w.get('op') in ('disk', 'cascade'):
         oracle_disk(col, _decode_disk(w['case']))
+    elif w.get('op') == 'history':
+        oracle_history(col, _decode_disk(w['case']))
     elif w.get('op') == 'edges':
         oracle_edges(col, w['case'])
     elif w.get('op') == 'phase':
